@@ -27,7 +27,32 @@ pub mod c20;
 pub mod pad;
 pub mod mux;
 
+/// Run a check; a panic that escapes from the code under test on a harness thread is itself a
+/// violation (with the panic as the witness), a panic of the harness is broken machinery.
 pub fn dispatch(prop: &str, ctx: Ctx, replay: Option<&str>) -> i32 {
+    let prop2 = prop.to_string();
+    let replay2 = replay.map(|s| s.to_string());
+    match std::panic::catch_unwind(move || dispatch_inner(&prop2, ctx, replay2.as_deref())) {
+        Ok(code) => code,
+        Err(_) => {
+            let last = crate::run::last_panic();
+            if crate::run::is_harness_panic(&last) {
+                println!("BROKEN-MACHINERY property={prop} the harness itself panicked: {last}");
+                2
+            } else {
+                let root = crate::report::verif_root();
+                let _ = std::fs::create_dir_all(root.join("replays"));
+                let path = root.join("replays").join(format!("{prop}-panic-{}.json", std::process::id()));
+                let _ = std::fs::write(&path, serde_json::json!({"property": prop, "signature": "panic|escaped_to_monitor|panic", "detail": last, "tier": ctx.tier.name(), "seed": ctx.seed as i64}).to_string());
+                println!("VIOLATION property={prop} replay={}", path.display());
+                println!("  detail: the code under test panicked: {last}");
+                1
+            }
+        }
+    }
+}
+
+fn dispatch_inner(prop: &str, ctx: Ctx, replay: Option<&str>) -> i32 {
     let started = Instant::now();
     if let Some(path) = replay {
         return replay_file(prop, path);
